@@ -51,6 +51,16 @@ def conn(T, c, a, b):
 # calling into dd
 # ---------------------------------------------------------------------------
 
+class AllocFault(Exception):
+    """The armed node limit (`max_nodes`) was hit inside the call (F-alloc)."""
+
+
+# instructions that may run under a node limit: one dd call, nothing held
+# across it, no level swaps inside (a swap that runs out of nodes half-way
+# cannot be atomic, and nothing claims it is)
+ALLOC_OPS = {'apply', 'ite', 'fop', 'quant', 'let', 'cube', 'find_or_add', 'add_expr', 'var'}
+
+
 def call(w, fn, *a, **kw):
     """Run one dd call. Returns (True, value) or (False, (type, msg))."""
     A = seams.ALLOC
@@ -110,6 +120,9 @@ def call(w, fn, *a, **kw):
             e.__traceback__ = None
             del e
             info['raised'] = r[0]
+            if w.alloc_armed and r[0] == 'RuntimeError' and 'max_nodes' in r[1]:
+                info['fault'] = 'alloc'
+                raise AllocFault()
             return False, r
     finally:
         if tracer_on:
@@ -359,6 +372,38 @@ def op_eqcheck(w, ins):
     one = 1 if g.flavor == 'raw' else node_of(g.api.true)
     if (node_of(a.ref) == one) != (a.tt == w.tt.mask) or (node_of(a.ref) == -one) != (a.tt == 0):
         w.fail('I-canon', f'handle @{node_of(a.ref)}: comparison with true/false disagrees with validity/unsatisfiability', ['C02'])
+    # the same through the interface a user has: `==`, `!=`, hashing (handles as
+    # set members and dict keys), membership in the manager, manager identity
+    want = a.tt == b.tt
+    tags = owner_tags(w, 'C02')
+    ok, v = call(w, lambda x, y: (x == y, x != y), a.ref, b.ref)
+    if not ok:
+        w.fail('exception:' + v[0], f'comparison of two references raised {v[1]}', tags)
+    if v != (want, not want):
+        w.fail('wrong_result', f'(u == v, u != v) is {v} for {"equal" if want else "different"} functions', tags)
+    ok, v = call(w, lambda x, y: (len({x, y}), y in {x: None}, hash(x) == hash(y)), a.ref, b.ref)
+    if not ok:
+        w.fail('exception:' + v[0], f'hashing references raised {v[1]}', tags)
+    if v[0] != (1 if want else 2) or v[1] != want or (want and not v[2]):
+        w.fail('wrong_result', f'references as set members / dict keys: (len of set, found as key, equal hashes) = {v} for {"equal" if want else "different"} functions', tags)
+    ok, v = call(w, lambda x: x in g.api, a.ref)
+    if not ok or v is not True:
+        w.fail('wrong_result', f'`u in bdd` is {v!r} for a live reference of that manager', tags)
+    if g.flavor == 'autoref':
+        ok, v = call(w, lambda x: (str(x), int(x)), a.ref)
+        if not ok or v != (f'@{node_of(a.ref)}', node_of(a.ref)):
+            w.fail('wrong_result', f'(str(u), int(u)) is {v!r} for the reference @{node_of(a.ref)}', tags)
+        others = [o for o in w.mgrs if o is not g and o.flavor == 'autoref']
+        ok, v = call(w, lambda: (g.api == g.api, [g.api == o.api for o in others], dict(g.api.var_levels) == dict(g.api.vars)))
+        if not ok or v != (True, [False] * len(others), True):
+            w.fail('wrong_result', f'(manager equals itself, equals another manager, var_levels equals vars) = {v!r}', tags)
+    ok, v = call(w, str, g.api)
+    if g.flavor == 'autoref':
+        good = ok and f'{len(g.api.vars)} BDD variables' in v and f'{len(g.api)} nodes' in v
+    else:
+        good = ok and f'var levels: {g.raw.vars}' in v
+    if not good:
+        w.fail('wrong_result', f'str(bdd) is {v!r} for {len(g.api.vars)} variables and {len(g.api)} nodes', owner_tags(w, 'C18'))
 
 
 def op_probe(w, ins):
@@ -616,6 +661,12 @@ def op_let(w, ins):
         if g.flavor != 'autoref' or not all(n.isidentifier() for n in d):
             return 'skip'
         ok, v = call(w, lambda f, dd_: f.let(**dd_), a.ref, d)
+    elif how == 'module':
+        # the module-level function `dd.bdd.rename(u, bdd, dvars)`
+        if g.flavor != 'raw' or kind != 'name':
+            return 'skip'
+        ok, v = call(w, seams.DD.bdd.rename, a.ref, g.raw, d)
+        w.stats['rename_module_level'] += 1
     else:
         return 'skip'
     take_result(w, m, ok, v, want, 'C04', ins.get('keep', True), f'let[{kind}/{how}]')
